@@ -85,7 +85,7 @@ def strip_indents(lines: list[str], ii: str, si: str) -> tuple[list[str] | None,
 
 def judge(text: str, lines: list[str], width: int, ii: str, si: str, *, fill: bool,
           first_col: int | None = None, check_indent: bool = True, one_line_segments: int | None = None,
-          fill_width: int | None = None, allow_escape: bool = True, first_line_escape: bool = False, lenf=len):
+          fill_width: int | None = None, allow_escape: bool = True, first_line_escape: bool = False, lenf=len, plain_tokens: bool = False):
     """text: what the wrapper was given (one segment: no hard breaks / tag newlines);
     lines: emitted lines including indents; width: configured width.
     first_col: column at which the first line starts if different from len(ii).
@@ -105,6 +105,10 @@ def judge(text: str, lines: list[str], width: int, ii: str, si: str, *, fill: bo
             dev.append(("lossless", {"why": "output for empty input", "lines": lines[:3]}))
         return dev
     split = get_html_md_word_splitter()
+    if plain_tokens:
+        # the text is known (by construction) to hold no atomic construct: its words are its white-space separated tokens,
+        # whatever the splitter of the code under test thinks
+        split = lambda t: t.split()  # noqa: E731
     tokens = [norm(t) for t in split(S)]
     ok, bad, toks, esc = consume(tokens, nb, allow_escape, first_line_escape)
     if not ok:
